@@ -77,8 +77,8 @@ static std::string sg(const char *target, const char *what) { return std::string
 // =========================================================================
 // Fixed-block pools. One history runner over three adapters.
 //
-// Adapter: cap, elemsz, zone; alloc(fill) -> cell or null (stamps the cell),
-// release(p), verify(p, fill) -> index of first changed byte or -1, avail(),
+// Adapter: cap, elemsz, zone; alloc(fill) -> cell or null, stamp(p, fill) fills
+// an admitted cell, release(p), verify(p, fill) -> index of first changed byte or -1, avail(),
 // allocated(idx), step(c, nlive) / probe(c, live) for adapter-specific checks.
 template <class A> static void pool_history(Src &s, Case &c, A &a, const char *T)
 {
@@ -134,6 +134,7 @@ template <class A> static void pool_history(Src &s, Case &c, A &a, const char *T
         const Blk *o = overlapping(live, p, elemsz);
         VP_CHECK(!o, sg(T, "overlap"), "cell %ld handed out while it is live (block #%u)", cell_index(p),
                  o ? o->id : 0);
+        a.stamp(p, f);
         live.push_back(Blk{p, elemsz, f, ++ids});
         c.log("a#%u=c%ld ", ids, cell_index(p));
         VP_CHECK(a.allocated((size_t)cell_index(p)) != 0, sg(T, "allocated_cell_in_freelist"),
@@ -254,11 +255,7 @@ struct RawAdapterBase
     uint8_t *zone;
     bool final_phase = false;
     long verify(void *p, uint8_t f) { return first_diff((uint8_t *)p, elemsz, f); }
-    void stamp(void *p, uint8_t f)
-    {
-        if (p)
-            fill_bytes((uint8_t *)p, elemsz, f);
-    }
+    void stamp(void *p, uint8_t f) { fill_bytes((uint8_t *)p, elemsz, f); }
 };
 
 // ---------------------------------------------------------------- pool_c
@@ -271,12 +268,7 @@ struct PoolC : RawAdapterBase
         pool_init(&head);
         pool_engage(&head, zone, cap * elemsz, elemsz);
     }
-    void *alloc(uint8_t f)
-    {
-        void *p = pool_alloc(&head);
-        stamp(p, f);
-        return p;
-    }
+    void *alloc(uint8_t) { return pool_alloc(&head); }
     void release(void *p) { pool_free(&head, p); }
     size_t avail() { return pool_avail(&head); }
     int allocated(size_t i) { return !pool_in_freelist(&head, zone + i * elemsz); }
@@ -308,12 +300,7 @@ struct PoolCxx : RawAdapterBase
     bool room_tainted = false;
     const bool k_get = known_active(K_POOL_GET);
     PoolCxx(uint8_t *z, size_t cap_, size_t el) : pl(z, cap_ * el, el) { zone = z, cap = cap_, elemsz = el; }
-    void *alloc(uint8_t f)
-    {
-        void *p = pl.get();
-        stamp(p, f);
-        return p;
-    }
+    void *alloc(uint8_t) { return pl.get(); }
     void release(void *p) { pl.put(p); }
     size_t avail() { return pl.avail(); }
     int allocated(size_t i) { return pl.cell_is_allocated((int)i); }
@@ -407,7 +394,6 @@ struct Tracked
     static void reset()
     {
         live().clear(); // leftovers of a case that failed: their storage is gone already
-
         err = nullptr;
         ctors = dtors = 0;
     }
@@ -457,6 +443,7 @@ template <size_t N> struct ObjPool
         pl->destroy((Tracked *)p);
         gone++;
     }
+    void stamp(void *, uint8_t) {} // the object constructed in the cell is the content
     long verify(void *p, uint8_t f)
     {
         const Tracked *t = (const Tracked *)p;
@@ -620,6 +607,12 @@ struct Heap
         note_brk();
         ever = true;
         c.log("%s(%zu)=#%u@%ld ", via_realloc ? "r0" : "m", sz, ids + 1, p ? (long)(p - (uint8_t *)_heap_start) : -1);
+        if (!p && sz == 0)
+        {
+            // ISO C lets a zero-size request answer NULL (this shim does not)
+            c.label("null_for_zero_size");
+            return;
+        }
         check_block(op, p, sz);
         served(p, brk0);
         if (sz == 0)
@@ -678,6 +671,12 @@ struct Heap
         }
         live.erase(live.begin() + (long)i);
         demand -= need(b.n);
+        if (!q && sz == 0)
+        {
+            // ISO C lets realloc(p, 0) free p and answer NULL (this shim does not)
+            c.label("null_for_zero_size");
+            return;
+        }
         check_block("realloc", q, sz);
         size_t keep = std::min(b.n, sz);
         long d = first_diff(q, keep, b.fill);
@@ -790,44 +789,66 @@ VP_TARGET("heap", heap_target,
           "then free everything LIFO/FIFO/random; non-trivial = some malloc/realloc was served from the free list "
           "(returned address below the break)");
 
-// ---- exhaustive: every history of length <= L over 4 block slots; per step
-// (slot, a): empty slot -> malloc of {8,64,200,0}[a]; full slot -> realloc to
-// {8,64,200}[a] or, a == 3, free. Then the remaining blocks are freed in slot
-// order. 16 operations per step.
-static int enum_len(int tier) { return tier ? 7 : 5; }
-static unsigned __int128 heap_enum_size(int tier)
+// ---- exhaustive. Per step a pair (slot, a): an empty slot -> malloc of
+// {8,64,200,0}[a]; a full slot -> realloc to {8,64,200}[a] or, a == 3, free.
+// Afterwards the remaining blocks are freed in slot order. Two spaces:
+//   A: 4 block slots (16 operations per step), every length <= 5 (quick) / <= 6 (thorough)
+//   B: 3 block slots (12 operations per step), length exactly 6 (quick) / 7 (thorough)
+// so every history of length <= 7 over 3 slots and <= 6 over 4 slots is run in
+// the thorough tier.
+static uint64_t ipow(uint64_t b, int e)
 {
-    unsigned __int128 t = 0, p = 1;
-    for (int l = 0; l <= enum_len(tier); l++)
-    {
-        t += p;
-        p *= 16;
-    }
+    uint64_t r = 1;
+    while (e-- > 0)
+        r *= b;
+    return r;
+}
+static int enum_len_a(int tier) { return tier ? 6 : 5; }
+static uint64_t enum_size_a(int tier)
+{
+    uint64_t t = 0;
+    for (int l = 0; l <= enum_len_a(tier); l++)
+        t += ipow(16, l);
     return t;
 }
+static unsigned __int128 heap_enum_size(int tier) { return enum_size_a(tier) + ipow(12, enum_len_a(tier) + 1); }
 static void heap_enum_target(Src &s, Case &c)
 {
     uint64_t k = s.below((uint64_t)heap_enum_size(tier()));
     int len = 0;
-    for (uint64_t p = 1; k >= p; p *= 16)
+    unsigned radix = 16;
+    if (k < enum_size_a(tier()))
     {
-        k -= p;
-        len++;
+        for (uint64_t p = 1; k >= p; p *= 16)
+        {
+            k -= p;
+            len++;
+        }
+        c.label("4_slots");
+    }
+    else
+    {
+        k -= enum_size_a(tier());
+        len = enum_len_a(tier()) + 1;
+        radix = 12;
+        c.label("3_slots");
     }
     static const size_t SZ[4] = {8, 64, 200, 0};
     Heap h(c);
     unsigned slot[4] = {0, 0, 0, 0}; // block id, 0 = empty
-    c.log("enum len=%d\n", len);
+    c.log("enum slots=%u len=%d\n", radix / 4, len);
     for (int i = 0; i < len; i++)
     {
-        unsigned d = (unsigned)(k % 16);
-        k /= 16;
+        unsigned d = (unsigned)(k % radix);
+        k /= radix;
         unsigned j = d / 4, a = d % 4;
         c.log("s%u:", j);
         if (!slot[j])
         {
+            unsigned before = h.ids;
             h.do_malloc(SZ[a], false);
-            slot[j] = h.live.back().id;
+            if (h.ids != before)
+                slot[j] = h.ids;
         }
         else if (a == 3)
         {
@@ -835,12 +856,17 @@ static void heap_enum_target(Src &s, Case &c)
             slot[j] = 0;
         }
         else
+        {
             h.do_realloc((size_t)h.find(slot[j]), SZ[a]);
+            if (h.find(slot[j]) < 0)
+                slot[j] = 0;
+        }
     }
     h.finish(nullptr, 1);
 }
 VP_TARGET("heap_enum", heap_enum_target,
-          "exhaustive: every history of length <= 5 (quick) / <= 7 (thorough) over 4 block slots with 16 operations "
-          "per step (empty slot: malloc 8/64/200/0; full slot: realloc to 8/64/200 or free), then free the rest in "
-          "slot order; non-trivial = served from the free list",
+          "exhaustive: every history of length <= 5 (quick) / <= 6 (thorough) over 4 block slots and every history of "
+          "length 6 (quick) / 7 (thorough) over 3 block slots; per step and slot: malloc 8/64/200/0 into an empty "
+          "slot, realloc to 8/64/200 or free of a full one; then the rest is freed in slot order; non-trivial = "
+          "served from the free list",
           heap_enum_size);
